@@ -75,8 +75,9 @@ let parse_case (case : string) : int list * (int * int) list =
       let k = String.sub tok 0 i and v = String.sub tok (i + 1) (String.length tok - i - 1) in
       let items = List.filter (fun x -> x <> "") (String.split_on_char ',' v) in
       if k = "script" then scr := List.map int_of_string items
-      else if k = "panics" then
-        pan := List.map (fun x -> match String.split_on_char '.' x with
+      else if k = "panics" || k = "bombs" then
+        (* a bomb (payload whose Drop panics) is a panicking call as far as the slots go *)
+        pan := !pan @ List.map (fun x -> match String.split_on_char '.' x with
           | [b; i] -> (int_of_string b, int_of_string i) | _ -> failwith ("bad panics " ^ x)) items
     | None -> ()) (toks case);
   (!scr, !pan)
@@ -161,7 +162,9 @@ let pool_replay (line : string) : string =
            step PoolM.ELoad "load"
          | ["P"; "0"] -> step PoolM.EPark "park"
          | ["W"; "0"] -> step PoolM.ESpurious "spurious"
-         | ["T"; sl] ->
+         | ["T"; sl] | ["Z"; sl] ->
+           (* T: par_extend returned; Z: it was left by a panic escaping from the drop of the caller's caught
+              payload.  In pool.rs that drop comes after the wait loop, i.e. after the model's return step. *)
            (match !s.PoolM.cst, List.rev !s.PoolM.returned with
             | PoolM.CIdle, r :: _ when List.length !s.PoolM.returned = !rets_seen + 1 ->
               incr rets_seen;
@@ -206,8 +209,8 @@ let ev_of_token (tok : string) : PoolMon.ev =
     | ["L"; _; v] -> PoolMon.VLoad (n v)
     | ["P"; _] -> PoolMon.VPark
     | ["W"; _] -> PoolMon.VSpur
-    | ["T"; sl] -> PoolMon.VRet (slots_of_string sl)
-    | ["T"] -> PoolMon.VRet []
+    | ["T"; sl] | ["Z"; sl] -> PoolMon.VRet (slots_of_string sl)
+    | ["T"] | ["Z"] -> PoolMon.VRet []
     | ["X"] -> PoolMon.VDrop
     | ["E"; t] -> PoolMon.VExit (n t)
     | _ -> PoolMon.VOther
@@ -216,7 +219,7 @@ let ev_of_token (tok : string) : PoolMon.ev =
 let clause_name = function
   | 1 -> "once-per-index" | 2 -> "results-indexed" | 3 -> "touch-after-caller-may-resume" | 4 -> "worker-not-exited"
   | 5 -> "spawn-count" | 6 -> "dead-task-block-access" | 7 -> "foreign-event" | 8 -> "incomplete(deadlock)"
-  | 9 -> "returned-with-nonzero-counter" | k -> "clause" ^ string_of_int k
+  | 9 -> "caller-left-broadcast-with-nonzero-counter" | k -> "clause" ^ string_of_int k
 
 (* which: the clauses that belong to the property; the others are reported by the sibling property *)
 let pool_sb (which : int list) (line : string) : string =
